@@ -90,6 +90,23 @@ SPECS += [
          props=["C01", "C02", "C04", "C20"], **SCHED_COMMON),
 ]
 
+SPECS += [
+    # ---- schedule.py : topology validation (C19) -----------------------------------------------------------------
+    dict(lean="check_input_connected", path="schedule.py", qual="_check_input_connected", group="Validate",
+         params={"inp": "Obj"}, ignore_params=["comp"], ret="Unit",
+         conds={"inp.source is None": "(h.hasSource inp = false)"},
+         fuel={"isinstance(inp, IInput)": "lean:(h.size + 1)"},
+         raises={"FinamConnectError": "Err.connectErr"}, props=["C19"], **SCHED_COMMON),
+    dict(lean="check_dead_links", path="schedule.py", qual="_check_dead_links", group="Validate",
+         params={"inp": "Obj"}, ignore_params=["comp"], ret="Unit",
+         fuel={"isinstance(inp, IInput)": "lean:(h.size + 1)"},
+         raises={"_dead_link_error": "Err.connectErr"}, props=["C19"], **SCHED_COMMON),
+    dict(lean="check_branching", path="schedule.py", qual="_check_branching", group="Validate",
+         params={"out": "Obj"}, ignore_params=["comp"], ret="Unit",
+         fuel={"len(targets) > 0": "lean:(h.size + 1)"},
+         props=["C19"], **SCHED_COMMON),
+]
+
 
 def by_group():
     g = {}
